@@ -19,6 +19,7 @@ import Kap.Proofs.C01Flap
 import Kap.Proofs.C01Decl
 import Kap.Proofs.C01Window
 import Kap.Proofs.C01Restart
+import Kap.Proofs.C01Inhibit
 namespace Kap.Props.C01
 open Kap.C01
 
@@ -368,6 +369,66 @@ theorem old_restore_witness :
       = some { level := 2, time := 30, dur := 10 } ∧
     (pointStep c (fun f _ _ => f) (restoreEventState c (fun f _ _ => f) 30 2 20 20) { t := 30, w := some true }).2
       = some { level := 2, time := 30, dur := 30 } := by
+  decide
+
+/-! ### Inhibition (`.inhibit(category, tags…)` / `.category(c)`) -/
+
+/-- `handleEvent` drops the event of an inhibited category first, and alert/inhibit.go + the inhibitor set-up of
+`newAlertState` are the transcribed source. -/
+theorem inhibition_recognised : Gen.inhibitionRecognised = true := by decide
+
+/-- **The inhibition an ID exerts tracks its level**: after EVERY stream history the flag on its inhibitors is set iff
+the ID's current level is not OK — for every combination of no-recoveries and state-changes-only (with or without
+interval) on the inhibiting alert; flap detection off. In particular a recovery withheld by no-recoveries, or a
+repeat swallowed by state-changes-only, still leaves the flag right. -/
+theorem inhibition_tracks_level (c : Cfg) (hc : c.WF) (hf : c.useFlap = false) (flap : FlapFn) (ps : List Pt) :
+    let s := (runStream c flap (newAlertState c) ps).1
+    s.inhibiting = (currentLevel s != 0) :=
+  stream_irel c hc hf flap ps _ _ (rel_init c hc) (irel_init c)
+
+theorem inhibition_tracks_level_batch (c : Cfg) (hc : c.WF) (hf : c.useFlap = false) (flap : FlapFn) (bs : List Batch) :
+    let s := (runBatches c flap (newAlertState c) bs).1
+    s.inhibiting = (currentLevel s != 0) :=
+  batches_irel c hc hf flap bs _ _ (rel_init c hc) (irel_init c)
+
+/-- The same claim WITH flap detection on the inhibiting alert (stated, NOT proved, false of the code): -/
+def inhibition_tracks_level_under_flapping_stmt : Prop :=
+  ∀ (c : Cfg) (flap : FlapFn) (ps : List Pt), c.WF →
+    let s := (runStream c flap (newAlertState c) ps).1
+    s.inhibiting = (currentLevel s != 0)
+
+/-- … `triggered()` is the only place that sets the inhibitors and a flap-suppressed point never reaches it: an ID that
+goes WARNING while flapping does not inhibit, and one that returns to OK while flapping keeps inhibiting (stream
+form). Model-level witness; inhibiting alerts with flap detection are outside the correspondence (see assumptions). -/
+theorem inhibition_stale_under_flap_suppression :
+    let c : Cfg := { warn := true, useFlap := true, history := 2 }
+    let always : FlapFn := fun _ _ _ => true
+    let s1 := (runStream c always (newAlertState c) [{ t := 1, w := some true }]).1
+    let never_then_always : FlapFn := fun _ ring idx => ring.getD idx 0 == 0
+    let s2 := (runStream c never_then_always (newAlertState c) [{ t := 1, w := some true }, { t := 2 }]).1
+    (currentLevel s1 = 2 ∧ s1.inhibiting = false) ∧ (currentLevel s2 = 0 ∧ s2.inhibiting = true) := by
+  decide
+
+/-- **B's emission rule under inhibition** (two-ID world, every interleaving of the two IDs' points, every
+configuration of both alerts without flap detection): an event of B reaches B's handlers exactly when C01's rule
+delivers it AND the inhibiting ID A (whose declaration matches B's category and tags: `hit`) is OK at that moment —
+judged on A's LEVEL history, so with no-recoveries on A the inhibition still ends when A returns to OK. A's own
+events and B's state machine (levels, durations, "last alert") are untouched by the inhibition. -/
+theorem inhibited_event_rule (ca cb : Cfg) (hca : ca.WF) (hcb : cb.WF) (hfa : ca.useFlap = false) (hfb : cb.useFlap = false)
+    (fa fb : FlapFn) (hit : Bool) (ops : List WOp) :
+    runWorld ca cb fa fb hit { a := newAlertState ca, b := newAlertState cb } ops = specRunWorld ca cb hit {} ops :=
+  world_refines ca cb hca hcb hfa hfb fa fb hit ops _ _ (rel_init ca hca) (rel_init cb hcb) (irel_init ca)
+
+/-- non-vacuity: A = `.warn().noRecoveries().stateChangesOnly().inhibit(…)`, B = `.warn()`: B@2 dropped while A is WARNING,
+A's recovery @3 withheld, B@4 delivered again (this is the history the seeded change C01-5 gets wrong). -/
+example :
+    let ca : Cfg := { warn := true, noRec := true, sco := true, history := 2 }
+    let cb : Cfg := { warn := true, history := 2 }
+    let id : FlapFn := fun f _ _ => f
+    runWorld ca cb id id true { a := newAlertState ca, b := newAlertState cb }
+      [.pa { t := 1, w := some true }, .pb { t := 2, w := some true }, .pa { t := 3 }, .pb { t := 4, w := some true }]
+      = [(some { level := 2, time := 1, dur := 0 }, none), (none, none), (none, none),
+         (none, some { level := 2, time := 4, dur := 2 })] := by
   decide
 
 /-! ### Non-vacuity: the hypotheses are met, and the theorems say something on a concrete non-trivial history -/
